@@ -124,6 +124,17 @@ def evaluate(ck, recs):
                             "generator signed contradicting headers / maxHeightGenerated below an earlier own height / info not "
                             "persisted before hand-off",
                             "forge / generator DB differs from the GenInfo model", r)
+    for r in [x for x in recs if x["k"] == "abi"]:
+        ck.count()
+        ck.nontrivial(("abi",))
+        if r.get("fail"):
+            continue
+        if r.get("panic") or r.get("err") or r["selected"] != 1:
+            f = dict(kind="input", key="c15:abi:consensus-nil",
+                     what="generator executing a pooled transaction through the in-process framework.ABIHandler: %s" % json.dumps(r), case=r)
+            f["spec_violated"] = True
+            f["theorem_or_correspondence"] = "generator.stateExecuter.ExecuteTransaction vs framework.ABIHandler.ExecuteTransaction"
+            ck.failures.append(f)
     rounds = []
     for r in acc:
         for i in range(len(r["forged"])):
@@ -203,8 +214,6 @@ def run(ck):
         "block is processed by the own node before the next forge tick (AddInternal drops blocks when the queue is full)",
         "selection: one sender's processable transactions have distinct nonces (Go's sort.Slice is not stable)",
         "acceptance of generated blocks is sampled on the real Executer with an empty transaction pool and a scripted ABI",
-        "engine and generator never set ExecuteTransactionRequest.Consensus although the in-process ABI handler dereferences it "
-        "(integration note; not exercised here because the ABI is a double)",
     ]
     if ck.tier == "thorough":
         ck.coqchk(["LE.Properties.C15"])
